@@ -454,7 +454,7 @@ fn slicesweep_line(p: &[&str]) -> (String, String) {
     }
     (
         format!("slicesweep-{}-{}-{}", isa, slice_ty_name(ty), S_NAMES[fn_ as usize]),
-        format!("CSliceSweep {} {} {} {} {} {} {}", ty, fn_, unroll, opk, lanes, r.len(), bad.map_or("None".to_string(), |l| format!("(Some {})", l))),
+        format!("CSliceSweep {} {} {} {} {} {} {}", ty, fn_, unroll, opk, lanes, r.len(), bad.map_or("None".to_string(), |l| format!("(Some {}%N)", l))),
     )
 }
 
@@ -547,6 +547,53 @@ fn generate(seed: u64, n: usize, tier: &str, out: &mut impl Write) {
     let thorough = tier == "thorough";
     let isas = available_isas();
     let mut rng = SplitMix64(seed);
+    if tier == "debug" {
+        // reduced set for the unoptimised build with overflow checks: what differs between the
+        // profiles is integer overflow (arithmetic in the generic ISA, shifts building masks)
+        for ty in 0..5u32 {
+            for op in 0..N_LANE_OPS {
+                if !op_defined(ty, op) {
+                    continue;
+                }
+                let ks = if op == OP_SHL || op == OP_SHR { vec![0, 1, ty_bits(ty) - 1] } else { vec![0] };
+                for k in ks {
+                    if ty_bits(ty) == 8 && matches!(op, OP_ADD | OP_SUB | OP_MUL | OP_MULADD | OP_ABS | OP_NEG | OP_SHL | OP_SHR) {
+                        writeln!(out, "sweep {} {} {} exh", ty, op, k).unwrap();
+                    } else {
+                        writeln!(out, "sweep {} {} {} rand {} {}", ty, op, k, seed, 1 << 12).unwrap();
+                    }
+                }
+            }
+        }
+        for op in 0..N_FLOAT_OPS {
+            writeln!(out, "fsweep {} {} {}", op, seed, 1 << 10).unwrap();
+        }
+        for isa in &isas {
+            for ty in [0u32, 3, 4, 5] {
+                for f in [S_MAP_INPLACE, S_APPLY, S_ITER, S_FOLD_UNROLL] {
+                    writeln!(out, "slicesweep {} {} {} 2 0 {}", isa, ty, f, seed).unwrap();
+                }
+            }
+            for ty in 0..5u32 {
+                for v in 0..N_VEC_OPS {
+                    if vop_defined(ty, v) {
+                        writeln!(out, "vec {} {} {} {}", isa, ty, v, rng.next() >> 16).unwrap();
+                    }
+                }
+            }
+        }
+        for _ in 0..n {
+            let ty = rng.below(5) as u32;
+            let op = rng.pick(&[OP_ADD, OP_SUB, OP_MUL, OP_MULADD, OP_ABS, OP_NEG, OP_SHL, OP_CLAMP, OP_NOT]);
+            if !op_defined(ty, op) {
+                continue;
+            }
+            let k = if op == OP_SHL { rng.below(ty_bits(ty) as u64) as u32 } else { 0 };
+            let bv = boundary_values(ty);
+            writeln!(out, "prim {} {} {} {} {} {}", ty, op, k, rng.pick(&bv), rng.pick(&bv), rng.pick(&bv)).unwrap();
+        }
+        return;
+    }
     // 1. sweeps judged in Rust (every op, every type)
     for ty in 0..5u32 {
         for op in 0..N_LANE_OPS {
@@ -601,8 +648,9 @@ fn generate(seed: u64, n: usize, tier: &str, out: &mut impl Write) {
                         lens.sort();
                         lens.dedup();
                         // keep the Coq side small: a third of the lengths per combination in the quick tier
+                        let pickd = (ty + 3 * f + 5 * u + 7 * opk) as usize;
                         for (i, len) in lens.iter().enumerate() {
-                            if thorough || (i + (ty + f + u) as usize) % 3 == 0 || *len == lanes + 1 {
+                            if thorough || i == pickd % lens.len() || (*len == lanes + 1 && pickd % 2 == 0) {
                                 writeln!(out, "slice {} {} {} {} {} {} {}", isa, ty, f, u, opk, len, seed).unwrap();
                             }
                         }
@@ -612,7 +660,7 @@ fn generate(seed: u64, n: usize, tier: &str, out: &mut impl Write) {
         }
     }
     // 3. whole-vector primitives
-    let per = if thorough { 12 } else { 3 };
+    let per = if thorough { 12 } else { 1 };
     for isa in &isas {
         for ty in 0..5u32 {
             for v in 0..N_VEC_OPS {
@@ -647,7 +695,8 @@ fn generate(seed: u64, n: usize, tier: &str, out: &mut impl Write) {
 }
 
 fn exec_line(line: &str) -> String {
-    let p: Vec<&str> = line.split_whitespace().collect();
+    // anything after '#' is an annotation added by the check (e.g. the build profile)
+    let p: Vec<&str> = line.split('#').next().unwrap().split_whitespace().collect();
     let (tag, term) = match p[0] {
         "prim" => prim_line(&p),
         "sweep" => sweep_line(&p),
